@@ -323,6 +323,18 @@ func DecodeExpression(expr hcl.Expression, ctx *hcl.EvalContext, val interface{}
         return diags
     }
 
+    // a Go value cannot carry marks, and gocty panics when it meets one
+    if srcVal.ContainsMarked() {
+        diags = append(diags, &hcl.Diagnostic{
+            Severity: hcl.DiagError,
+            Summary:  "Unsuitable value type",
+            Detail:   "Unsuitable value: a marked value (e.g. a sensitive one) cannot be decoded here.",
+            Subject:  expr.StartRange().Ptr(),
+            Context:  expr.Range().Ptr(),
+        })
+        return diags
+    }
+
     err = gocty.FromCtyValue(srcVal, val)
     if err != nil {
         diags = append(diags, &hcl.Diagnostic{
